@@ -112,3 +112,286 @@ for _t in ("int32", "uint32", "int64", "uint8"):
                       ensures=[("inverse", ens_invert)]))
 
 MIN_OBLIGATIONS = 10
+
+
+# ---- BondList methods under the representation invariant ---------------------
+#
+# RI(self):  _bonds is an (nb, 3) uint32 array of rows (i, j, type) with i <= j < _atom_count
+#            and pairwise distinct (i, j); _max_bonds_per_atom >= OCC(a, nb) for every atom a
+#            (what __init__ / _remove_redundant_bonds / _get_max_bonds_per_atom establish)
+#
+# OCC(a, k) = number of occurrences of atom a in columns 0 and 1 of the rows < k
+# DEG(a, k) = number of rows < k incident to atom a          (ghost functions, defined by their
+#             recursion over the immutable input rows; DEG <= OCC; both monotone in k)
+
+DEG = z3.Function("DEG", z3.IntSort(), z3.IntSort(), z3.IntSort())
+OCC = z3.Function("OCC", z3.IntSort(), z3.IntSort(), z3.IntSort())
+
+
+def row(B, r, c):
+    return z3.Select(z3.Select(B, r), c)
+
+
+def incident(B, r, a):
+    return z3.Or(row(B, r, 0) == a, row(B, r, 1) == a)
+
+
+def partner(B, r, a):
+    return z3.If(row(B, r, 0) == a, row(B, r, 1), row(B, r, 0))
+
+
+def ghost_counts(I, B):
+    a, k, k2 = z3.Ints("a!d k!d k2!d")
+    A = I.ctx.assume
+    A(z3.ForAll([a], DEG(a, 0) == 0))
+    A(z3.ForAll([a], OCC(a, 0) == 0))
+    A(z3.ForAll([a, k], z3.Implies(k >= 0, DEG(a, k + 1) == DEG(a, k) + z3.If(incident(B, k, a), 1, 0))))
+    A(z3.ForAll([a, k], z3.Implies(k >= 0, OCC(a, k + 1) == OCC(a, k) + z3.If(row(B, k, 0) == a, 1, 0) + z3.If(row(B, k, 1) == a, 1, 0))))
+    # induction lemmas of the recursion equations
+    A(z3.ForAll([a, k, k2], z3.Implies(z3.And(k >= 0, k <= k2), z3.And(DEG(a, k) <= DEG(a, k2), OCC(a, k) <= OCC(a, k2)))))
+    A(z3.ForAll([a, k], z3.Implies(k >= 0, z3.And(DEG(a, k) >= 0, DEG(a, k) <= k, DEG(a, k) <= OCC(a, k), OCC(a, k) <= 2 * k))))
+
+
+def mk_bondlist(I, tag="", max_ok=True):
+    cls = get_class(I, BONDS, "BondList")
+    n = sym_c(I, "uint32", "atom_count" + tag)
+    nb = sym_int(I, "nb" + tag, 0, 2 ** 31 - 2)
+    M = sym_c(I, "uint32", "max_bonds" + tag)
+    bonds = SymArr("_bonds" + tag, "uint32", [nb, 3])
+    B = bonds.arr
+    ghost_counts(I, B)
+    a, k, k2 = z3.Ints("a!r k!r k2!r")
+    I.ctx.assume(z3.ForAll([k], z3.Implies(z3.And(k >= 0, k < nb),
+                                           z3.And(row(B, k, 0) >= 0, row(B, k, 0) <= row(B, k, 1), row(B, k, 1) < n.term,
+                                                  row(B, k, 2) >= 0, row(B, k, 2) <= 255))))
+    I.ctx.assume(z3.ForAll([k, k2], z3.Implies(z3.And(k >= 0, k < k2, k2 < nb),
+                                               z3.Or(row(B, k, 0) != row(B, k2, 0), row(B, k, 1) != row(B, k2, 1)))))
+    if max_ok:
+        I.ctx.assume(z3.ForAll([a], z3.Implies(z3.And(a >= 0, a < n.term), OCC(a, nb) <= M.term)))
+    obj = Obj(cls, {"_atom_count": n, "_bonds": bonds, "_max_bonds_per_atom": M})
+    g = {"n": n.term, "nb": nb, "M": M.term, "B": B, "self": obj}
+    I.ghost["bl" + tag] = g
+    return obj, g
+
+
+def cc_to_positive_index(I, f, args, kwargs):
+    """call-site use of _to_positive_index's contract (stated and checked above against its body):
+    IndexError unless -n <= index < n, otherwise the index of the same atom counted from the front"""
+    idx, n = zint(I.unC(args[0])), zint(I.unC(args[1]))
+    if I.ctx.branch(z3.Or(idx < -n, idx >= n)):
+        I.throw("IndexError", "index out of range")
+    return CV("uint32", simp(z3.If(idx < 0, idx + n, idx)))
+
+
+CC = {BONDS + "::_to_positive_index": cc_to_positive_index}
+
+
+# -- get_bonds
+
+def setup_get_bonds(I):
+    obj, g = mk_bondlist(I)
+    a = sym_c(I, "int32", "atom_index")
+    g["a"] = a.term
+    g["idx"] = z3.If(a.term < 0, a.term + g["n"], a.term)
+    return {"args": [obj, a], "ghost": g}
+
+
+def inv_get_bonds(I, env):
+    g = I.ghost["bl"]
+    i = zint(I.unC(env.lookup("i")))
+    j = zint(I.unC(env.lookup("j")))
+    out, typ = env.lookup("bonds_v").arr, env.lookup("bond_types_v").arr
+    B, idx = g["B"], g["idx"]
+    k = z3.Int("k!g")
+    return z3.And(i >= 0, i <= g["nb"], j == DEG(idx, i),
+                  z3.ForAll([k], z3.Implies(z3.And(k >= 0, k < i, incident(B, k, idx)),
+                                            z3.And(z3.Select(out, DEG(idx, k)) == partner(B, k, idx),
+                                                   z3.Select(typ, DEG(idx, k)) == row(B, k, 2)))))
+
+
+def ens_get_bonds(I, env):
+    g = I.ghost["bl"]
+    res = env.vars["result"]
+    bonds, types = res[0], res[1]
+    B, idx = g["B"], g["idx"]
+    k = I.ctx.fresh_int("k")
+    return [("count", z3.And(natives.eq(I, bonds.shape[0], DEG(idx, g["nb"])), natives.eq(I, types.shape[0], DEG(idx, g["nb"])))),
+            ("partners", implies(z3.And(k >= 0, k < g["nb"], incident(B, k, idx)),
+                                 z3.And(z3.Select(bonds.arr, DEG(idx, k)) == partner(B, k, idx),
+                                        z3.Select(types.arr, DEG(idx, k)) == row(B, k, 2))))]
+
+
+CASES.append(Case(BONDS + "::BondList.get_bonds", setup=setup_get_bonds, call_contracts=CC,
+                  raises={"IndexError": "a < -n or a >= n"},
+                  loops={0: {"invariant": [inv_get_bonds]}},
+                  ensures=[("bonds_of_atom", ens_get_bonds)]))
+
+
+# -- _get_max_bonds_per_atom
+
+def setup_max_bonds(I):
+    obj, g = mk_bondlist(I, max_ok=False)
+    return {"args": [obj], "ghost": g}
+
+
+def inv_max_bonds(I, env):
+    g = I.ghost["bl"]
+    i = zint(I.unC(env.lookup("i")))
+    cnt = env.lookup("index_count_v").arr
+    a = z3.Int("a!m")
+    return z3.And(i >= 0, i <= g["nb"],
+                  z3.ForAll([a], z3.Implies(z3.And(a >= 0, a < g["n"]), z3.Select(cnt, a) == OCC(a, i))))
+
+
+def ens_max_bonds(I, env):
+    g = I.ghost["bl"]
+    r = zint(I.unC(env.vars["result"]))
+    a = I.ctx.fresh_int("a")
+    w = z3.Int("w!m")
+    return [("bounds_every_atom", implies(z3.And(a >= 0, a < g["n"]), OCC(a, g["nb"]) <= r)),
+            ("attained_or_empty", z3.Or(z3.And(g["n"] == 0, r == 0),
+                                        z3.Exists([w], z3.And(w >= 0, w < g["n"], OCC(w, g["nb"]) == r))))]
+
+
+CASES.append(Case(BONDS + "::BondList._get_max_bonds_per_atom", setup=setup_max_bonds,
+                  loops={0: {"invariant": [inv_max_bonds]}},
+                  ensures=[("max_occurrences", ens_max_bonds)]))
+
+
+# -- add_bond
+
+def cc_get_max(I, f, args, kwargs):
+    """call-site use of _get_max_bonds_per_atom's contract (proved above): the result bounds the
+    occurrences of every atom in the *current* bond array (ghost OCC2 over that array)"""
+    self = args[0]
+    arr = self.attrs["_bonds"]
+    n = zint(I.unC(self.attrs["_atom_count"]))
+    nb = zint(arr.shape[0])
+    B2 = arr.arr
+    OCC2 = z3.Function(I.ctx.fresh_name("OCC2"), z3.IntSort(), z3.IntSort(), z3.IntSort())
+    a, k = z3.Ints("a!o k!o")
+    I.ctx.assume(z3.ForAll([a], OCC2(a, 0) == 0))
+    I.ctx.assume(z3.ForAll([a, k], z3.Implies(k >= 0, OCC2(a, k + 1) == OCC2(a, k) + z3.If(row(B2, k, 0) == a, 1, 0) + z3.If(row(B2, k, 1) == a, 1, 0))))
+    r = I.ctx.fresh_cv("uint32", "max_bonds_new")
+    I.ctx.assume(z3.ForAll([a], z3.Implies(z3.And(a >= 0, a < n), OCC2(a, nb) <= r.term)))
+    I.ghost["recomputed_for"] = (B2, nb, r.term)
+    return r
+
+
+def setup_add_bond(I):
+    obj, g = mk_bondlist(I)
+    a1, a2 = sym_c(I, "int32", "atom_index1"), sym_c(I, "int32", "atom_index2")
+    t = sym_int(I, "bond_type", -3, 300)
+    n = g["n"]
+    p1 = z3.If(a1.term < 0, a1.term + n, a1.term)
+    p2 = z3.If(a2.term < 0, a2.term + n, a2.term)
+    g.update({"a1": a1.term, "a2": a2.term, "t": t, "x": z3.If(p1 <= p2, p1, p2), "y": z3.If(p1 <= p2, p2, p1),
+              "n_types": len(get_class(I, BONDS, "BondType").members)})
+    k = z3.Int("k!a")
+    g["found"] = z3.Exists([k], z3.And(k >= 0, k < g["nb"], row(g["B"], k, 0) == g["x"], row(g["B"], k, 1) == g["y"]))
+    return {"args": [obj, a1, a2, t], "ghost": g}
+
+
+def inv_add_bond(I, env):
+    g = I.ghost["bl"]
+    i = zint(I.unC(env.lookup("i")))
+    B = g["B"]
+    cur = g["self"].attrs["_bonds"].arr
+    k = z3.Int("k!b")
+    return z3.And(i >= 0, i <= g["nb"], cur == B, z3.Not(zbool(I.unC(env.lookup("in_list")))),
+                  z3.ForAll([k], z3.Implies(z3.And(k >= 0, k < i),
+                                            z3.Not(z3.And(row(B, k, 0) == g["x"], row(B, k, 1) == g["y"])))))
+
+
+def ens_add_bond(I, env):
+    g = I.ghost["bl"]
+    self = g["self"]
+    arr = self.attrs["_bonds"]
+    B, nb, x, y, t = g["B"], g["nb"], g["x"], g["y"], g["t"]
+    B2 = arr.arr
+    nb2 = zint(arr.shape[0])
+    M2 = zint(I.unC(self.attrs["_max_bonds_per_atom"]))
+    k = I.ctx.fresh_int("k")
+    w = z3.Int("w!a")
+    match = lambda r: z3.And(row(B, r, 0) == x, row(B, r, 1) == y)
+    out = [("updated_if_present",
+            implies(z3.And(k >= 0, k < nb, match(k)),
+                    z3.And(nb2 == nb, row(B2, k, 0) == x, row(B2, k, 1) == y, row(B2, k, 2) == t, M2 == g["M"]))),
+           ("other_rows_unchanged",
+            implies(z3.And(k >= 0, k < nb, z3.Not(match(k))),
+                    z3.And(row(B2, k, 0) == row(B, k, 0), row(B2, k, 1) == row(B, k, 1), row(B2, k, 2) == row(B, k, 2)))),
+           ("appended_if_absent",
+            z3.Or(g["found"], z3.And(nb2 == nb + 1, row(B2, nb, 0) == x, row(B2, nb, 1) == y, row(B2, nb, 2) == t))),
+           ("length", z3.Or(nb2 == nb, nb2 == nb + 1)),
+           ("atom_count_unchanged", zint(I.unC(self.attrs["_atom_count"])) == g["n"])]
+    rec = I.ghost.get("recomputed_for")
+    if rec is not None:
+        # the cached maximum was recomputed for the array the list now holds
+        out.append(("max_recomputed_after_append", z3.And(rec[0] == B2, rec[1] == nb2, rec[2] == M2)))
+    else:
+        out.append(("max_kept_only_without_append", nb2 == nb))
+    return out
+
+
+CC_ADD = dict(CC)
+CC_ADD[BONDS + "::BondList._get_max_bonds_per_atom"] = cc_get_max
+CASES.append(Case(BONDS + "::BondList.add_bond", setup=setup_add_bond, call_contracts=CC_ADD,
+                  raises={"ValueError": "t >= n_types",
+                          "IndexError": "t < n_types and (a1 < -n or a1 >= n or a2 < -n or a2 >= n)"},
+                  may_raise=("OverflowError",),
+                  loops={0: {"invariant": [inv_add_bond]}},
+                  ensures=[("mapping_updated", ens_add_bond)]))
+
+
+# -- remove_bond
+
+def setup_remove_bond(I):
+    obj, g = mk_bondlist(I)
+    a1, a2 = sym_c(I, "int32", "atom_index1"), sym_c(I, "int32", "atom_index2")
+    n = g["n"]
+    p1 = z3.If(a1.term < 0, a1.term + n, a1.term)
+    p2 = z3.If(a2.term < 0, a2.term + n, a2.term)
+    g.update({"a1": a1.term, "a2": a2.term, "x": z3.If(p1 <= p2, p1, p2), "y": z3.If(p1 <= p2, p2, p1)})
+    return {"args": [obj, a1, a2], "ghost": g}
+
+
+def inv_remove_bond(I, env):
+    """rows before i: at most one matched (then it was deleted: the list holds B without that row)"""
+    g = I.ghost["bl"]
+    i = zint(I.unC(env.lookup("i")))
+    B, nb, x, y = g["B"], g["nb"], g["x"], g["y"]
+    arr = g["self"].attrs["_bonds"]
+    cur, nb2 = arr.arr, zint(arr.shape[0])
+    k, q = z3.Ints("k!r q!r")
+    match = lambda r: z3.And(row(B, r, 0) == x, row(B, r, 1) == y)
+    none_before = z3.ForAll([k], z3.Implies(z3.And(k >= 0, k < i), z3.Not(match(k))))
+    w = z3.Int("w!r")
+    one_before = z3.Exists([w], z3.And(w >= 0, w < i, match(w), nb2 == nb - 1,
+                                       z3.ForAll([q], z3.Implies(z3.And(q >= 0, q < nb - 1),
+                                                                 z3.Select(cur, q) == z3.If(q < w, z3.Select(B, q), z3.Select(B, q + 1))))))
+    return z3.And(i >= 0, i <= nb, env.lookup("all_bonds_v").arr == B,
+                  z3.Or(z3.And(none_before, cur == B, nb2 == nb), one_before))
+
+
+def ens_remove_bond(I, env):
+    g = I.ghost["bl"]
+    B, nb, x, y = g["B"], g["nb"], g["x"], g["y"]
+    arr = g["self"].attrs["_bonds"]
+    B2, nb2 = arr.arr, zint(arr.shape[0])
+    k = I.ctx.fresh_int("k")
+    w, q = z3.Ints("w!e q!e")
+    match = lambda r: z3.And(row(B, r, 0) == x, row(B, r, 1) == y)
+    absent = z3.ForAll([w], z3.Implies(z3.And(w >= 0, w < nb), z3.Not(match(w))))
+    return [("unchanged_if_absent", implies(absent, z3.And(nb2 == nb, B2 == B))),
+            ("removed_if_present", implies(z3.And(k >= 0, k < nb, match(k)),
+                                           z3.And(nb2 == nb - 1,
+                                                  z3.ForAll([q], z3.Implies(z3.And(q >= 0, q < nb - 1),
+                                                                            z3.Select(B2, q) == z3.If(q < k, z3.Select(B, q), z3.Select(B, q + 1))))))),
+            ("cache_and_count_unchanged", z3.And(zint(I.unC(g["self"].attrs["_max_bonds_per_atom"])) == g["M"],
+                                                 zint(I.unC(g["self"].attrs["_atom_count"])) == g["n"]))]
+
+
+CASES.append(Case(BONDS + "::BondList.remove_bond", setup=setup_remove_bond, call_contracts=CC,
+                  raises={"IndexError": "a1 < -n or a1 >= n or a2 < -n or a2 >= n"},
+                  loops={0: {"invariant": [inv_remove_bond], "modifies": ["self._bonds"]}},
+                  ensures=[("mapping_without_pair", ens_remove_bond)]))
